@@ -264,7 +264,7 @@ def gen_cases(rng, tier):
 
 
 SPEC = {
-    'gen_parts': ['Consts'],
+    'gen_parts': ['Consts', 'PageHint'],
     'allowed_axioms': (),
     'runner': 'c12',
     'bin': 'c12',
@@ -275,7 +275,9 @@ SPEC = {
             'ill-typed; about half of the sections/comb documents are bare: |objects| = tree nodes + catalog + 0..3, no indirection '
             'objects, i.e. least slack of iter_limit) and 13 kinds of damage '
             '(cycles, duplicates, ill-typed kids, missing/ill-typed Type, dangling, Kids not an array, Root/Pages broken, '
-            'Linearized fallback, reference loops); non-trivial = at least 2 leaves or malformed; distinct = distinct case text',
+            'Linearized fallback, reference loops); every case also steps the iterator by hand recording size_hint before and '
+            'after every page (compared with the model; upper bound and count-down checked directly), nth(k)/get_pages()[k+1], and '
+            'delete_pages of the middle page on every proper tree; non-trivial = at least 2 leaves or malformed; distinct = distinct case text',
     'extra_trusted': ['C12: model of PageTreeIter merges stack pops into pop_nonempty (justified in Model/PageTree.v header)'],
 }
 
@@ -288,10 +290,14 @@ MANIFEST = {
     'level_text': 'Machine-checked proof (Coq) that the model of PageTreeIter/get_pages equals the depth-first leaf order '
                   'of every represented page tree with distinct nodes and height <= PAGE_TREE_DEPTH_LIMIT+1 (C12_dfs), numbers '
                   'pages 1..n (C12_numbered), and on arbitrary graphs yields at most |objects| ids that are all Page '
-                  'dictionaries (C12_total); the limits are re-read from src/document.rs on every run and the model is '
+                  'dictionaries (C12_total); size_hint observed on the fresh iterator and after every page keeps lower <= upper and '
+                  'its upper bound covers the pages still to come on ANY document (C12_size_hint_sound) and the fresh iterator '
+                  'announces exactly the number of leaves when the Count entries are right (C12_size_hint_exact_partial; the '
+                  'count-down after each page is checked on the implementation only); the limits are re-read from src/document.rs on every run and the model is '
                   'tied to the implementation by differential runs on generated well-formed and damaged trees.',
-    'level_note': 'Trusted: Coq kernel; translator (two constants + three shape anchors); hand-written model of '
-                  'PageTreeIter::next tied by correspondence (observable: the yielded id list and get_pages map); '
+    'level_note': 'Trusted: Coq kernel; translator (two constants + nine shape anchors); hand-written model of '
+                  'PageTreeIter::next / size_hint tied by correspondence (observable: the yielded id list, get_pages map, '
+                  'size_hint at every observable state); '
                   'extraction/OCaml driver; Rust harness. No axioms (Print Assumptions: closed).',
     'technique': 'Coq proof by loop invariant over the iterator model + differential correspondence',
     'design_ref': 'DESIGN.md 6 C12',
